@@ -94,7 +94,7 @@ def cells(tier, seed):
                             out.append({"kind": "fista", "m": m, "n": n, "storage": storage, "start": start,
                                         "adaptive": adaptive, "reg": rk, "regpar": rp, "step": st, "cat": k})
     # LM
-    for prob in ("expfit", "rosenbrock", "quadpert"):
+    for prob in ("expfit", "rosenbrock", "quadpert", "smalldecay"):
         for sparse_flag in (True, False):
             for jtype in ("csr", "dense"):
                 for start in (0, 1):
@@ -506,6 +506,17 @@ def _lm_problem(name, k):
                 Jm[i, idx[i]] += 0.2 * x[idx[i]]
             return Jm
         starts = [np.zeros(3), np.ones(3)]
+    elif name == "smalldecay":
+        # small-amplitude exact data: the initial damping ||J0^T r0|| is below nu0, the first very successful step switches
+        # the damping off (pure Gauss-Newton) and from these starts the next Gauss-Newton step is rejected, so the damping
+        # has to be switched back on - exercises the rejected-step branch at nu = 0
+        tt = np.linspace(0, 4, 12)
+        xt = [np.array([0.9480442, 1.44239129]), np.array([1.04766525, 0.47934198]), np.array([1.12198377, 1.54862207])][k]
+        y = 0.1 * xt[0] * np.exp(-xt[1] * tt)
+        r = lambda x: 0.1 * x[0] * np.exp(-x[1] * tt) - y
+        J = lambda x: 0.1 * np.array([np.exp(-x[1] * tt), -x[0] * tt * np.exp(-x[1] * tt)]).T
+        starts = [[np.array([0.99878861, 3.77424113]), np.array([2.07277038, 3.71590276]), np.array([2.27785719, 3.73503278])][k],
+                  xt + np.array([0.3, 0.4])]
     else:
         raise ValueError(name)
     return r, J, starts
@@ -565,6 +576,12 @@ def _eval_lm(cell, res):
     if it >= maxit:
         res.count("maxit-reached")
         res.outcomes.add("maxit")
+        if cell["gradtol"] == "reachable" and documented:
+            # a smooth, well-conditioned 2-3 parameter problem and a tolerance the arithmetic can certify: Levenberg-Marquardt
+            # that spins for 3000 iterations without reaching a stationary point does not "return a stationary point"
+            res.fail("C16|LM|no-convergence|%s" % facet, "did not reach ||J^T r|| <= 1e-9 ||J0^T r0|| within %d iterations on the "
+                     "benign problem %r (||J^T r|| = %.3g, initially %.3g)" % (maxit, cell["prob"], float(np.linalg.norm(g)),
+                                                                              float(np.linalg.norm(g0))), x=x)
         res.nontrivial = False
         return
     res.count("converged")
